@@ -344,12 +344,12 @@ def gen_series(ctx, via):
     extra = [12289, 8191, 8192, 16385, 4098]
     if quick:
         sizes = [255, 257, 4095, 4096, 4097, 8193, extra[seed % 5]]
-        dlvsizes = [7, 300 + seed % 7]
+        dlvsizes = [7] + [300 + seed % 7 + j for j in range(6)]
         bytesizes = [256, 301 + 2 * (seed % 50)]
         bigfaces = 600 + seed % 5
     else:
         sizes = [1, 2, 3, 255, 256, 257, 1023, 1025, 2049, 4095, 4096, 4097, 16383, 20481, 32769, 8193] + extra
-        dlvsizes = [1, 7, 64, 300 + seed % 7, 1400 + seed % 11]
+        dlvsizes = [1, 7, 64] + [300 + seed % 7 + j for j in range(8)] + [1400 + seed % 11]
         bytesizes = [256, 301 + 2 * (seed % 50), 512, 1025]
         bigfaces = 1500 + seed % 5
     cases, r = _run_gen(ctx, "series", "PlySeriesGen",
@@ -391,6 +391,13 @@ def series_counters(cases, raw):
         n["deliveries"][k] = n["deliveries"].get(k, 0) + 1
         n["entry_load"] += s["dlv"]["kind"] == "file"
     n["read_ok"] = sum(1 for x in raw if '"rd":"OK"' in x)
+    strad = {}
+    for x in raw:
+        o = json.loads(x)
+        if o.get("straddle"):
+            k = o["ser"]["dlv"]["kind"] + (str(o["ser"]["dlv"]["k"]) if o["ser"]["dlv"]["k"] else "")
+            strad[k] = strad.get(k, 0) + 1
+    n["files_with_count_across_delivery_period"] = strad
     n["records_judged"] = sum(c["ser"]["n"] for c in cases)
     return n
 
@@ -430,6 +437,10 @@ def run_series(ctx, vh, prop, name="series"):
             raise core.Infra("vacuity guard (series): no case exercised %s" % k)
     if prop == "C08" and (counters["int_count_binary"] == 0 or len(counters["deliveries"]) < 8):
         raise core.Infra("vacuity guard (series): deliveries / 4-byte list counts not exercised")
+    if prop == "C08":
+        for k in ("refill4096", "bufio4096", "file"):
+            if not counters["files_with_count_across_delivery_period"].get(k):
+                raise core.Infra("vacuity guard (series): no file with a list count across a refill boundary under delivery %s" % k)
     return cases, findings, raw
 
 
